@@ -990,9 +990,12 @@ template<typename T, size_t ... ls, size_t ... fs, size_t... ss>
 struct permute_impl<Index<ls...>, Tensor<T, fs...>, std_ext::index_sequence<ss...>> {
     constexpr static size_t lst[sizeof...(ls)] = { ls... };
     constexpr static size_t fvals[sizeof...(ls)] = {fs...};
-    using resulting_tensor = Tensor<T,fvals[count_less(lst, lst[ss])]...>;
     using resulting_index  = typename meta_argsort<Index<ls...>,Index<ss...>>::new_argseq;
     using maxes_out_type   = Index<fvals[meta_argsort<Index<ls...>,Index<ss...>>::new_argseq::values[ss]]...>;
+    // the extents of the result must be the ones the elements are laid out with (maxes_out_type);
+    // they used to be taken from the permutation itself instead of its argsort, which is a different
+    // shape whenever the permutation is not an involution and the extents differ
+    using resulting_tensor = Tensor<T,fvals[meta_argsort<Index<ls...>,Index<ss...>>::new_argseq::values[ss]]...>;
     static constexpr bool requires_permutation = !(is_same_v_<resulting_tensor,Tensor<T, fs...>> &&
                                                     is_sequential(resulting_index::values));
 };
